@@ -33,6 +33,7 @@ type WCase struct {
 	Frame      Frame        `json:"frame"`
 	Store      []NamedTable `json:"store"`
 	Fault      int          `json:"fault"`
+	FaultNext  bool         `json:"fault_next,omitempty"` // the call numbered Fault (a query) succeeds, its rows fail on Next
 	Cancel     int          `json:"cancel"`
 	Tx         bool         `json:"tx"`
 	Entry      string       `json:"entry"`
@@ -139,6 +140,9 @@ func (w *WCase) options() []dataframe.SQLWriteOption {
 // RunW executes one export scenario against the in-memory driver.
 func RunW(w *WCase) {
 	mem := &MemDB{Quote: quoteFor(string(w.Dialect)), Committed: tablesToMap(w.Store), FailAt: w.Fault, CancelAt: w.Cancel}
+	if w.FaultNext {
+		mem.FailAt, mem.NextFailAt = 0, w.Fault
+	}
 	db := OpenMem(mem)
 	defer CloseMem(db)
 	df := Build(w.Frame)
